@@ -44,7 +44,9 @@ Dbs == [ d1 |-> [tabs |-> (T :> [cols |-> TabA, rows |-> <<<<IntV(1), sa>>, <<In
          d4 |-> [tabs |-> (T :> [cols |-> <<ColK, StrCol(V, 0, TRUE, FALSE, <<>>)>>,
                                  rows |-> <<<<IntV(1), StrV([k \in 1..66000 |-> 97 + (k % 7)])>>, <<IntV(2), sa>>,
                                             \* exactly 65536 bytes: the low half of the long form's length is 0
-                                            <<IntV(3), StrV([k \in 1..65536 |-> 98 + (k % 5)])>>>>]),
+                                            <<IntV(3), StrV([k \in 1..65536 |-> 98 + (k % 5)])>>,
+                                            \* exactly 65535 bytes: the longest string of the short form
+                                            <<IntV(4), StrV([k \in 1..65535 |-> 99 + (k % 3)])>>>>]),
                  streams |-> << >>],
          \* 32 columns in a type mix (i16, i32, string(8), unlimited localizable string; nullable and not)
          d5 |-> [tabs |-> (T :> [cols |-> Cols32, rows |-> <<Row32(1), Row32(2)>>]), streams |-> << >>],
@@ -102,7 +104,10 @@ BuildImage(db, c) ==
       ts1 == IF c.validation THEN TsSet(ts0, N_Validation, v.rows) ELSE ts0
       \* duplicate text: the last cell referring to an entry with two or more users gets an entry of its own
       pd == IF c.dup /\ \E k \in 1..Len(u.pool) : u.pool[k].rc >= 2 /\ Ref(k) \in {ts1[N_Columns][r][3] : r \in 1..Len(ts1[N_Columns])}
-            THEN LET k == MinOf({j \in 1..Len(u.pool) : u.pool[j].rc >= 2 /\ Ref(j) \in {ts1[N_Columns][r][3] : r \in 1..Len(ts1[N_Columns])}})
+            THEN LET cand == {j \in 1..Len(u.pool) : u.pool[j].rc >= 2 /\ Ref(j) \in {ts1[N_Columns][r][3] : r \in 1..Len(ts1[N_Columns])}}
+                     \* preferably the name of the nullable column V: its _Validation row (found through the OTHER copy of
+                     \* the text) carries what the type word does not - a reader must match catalog rows by text
+                     k == IF \E j \in cand : u.pool[j].s = V THEN CHOOSE j \in cand : u.pool[j].s = V ELSE MinOf(cand)
                      r == MinOf({r \in 1..Len(ts1[N_Columns]) : ts1[N_Columns][r][3] = Ref(k)})
                  IN [pool |-> Append([u.pool EXCEPT ![k].rc = @ - 1], Fresh(u.pool[k].s)),
                      ts |-> [ts1 EXCEPT ![N_Columns][r][3] = Ref(Len(u.pool) + 1)]]
